@@ -139,6 +139,9 @@ func buildCustom() driver.Base {
 
 func wrapFN(fn driver.RenderFN) driver.RenderFN {
 	return func(l, r string) (string, error) {
+		if !zsimrt.Instrumented {
+			return fn(l, r) // degraded mode: tasks run in parallel, no per-task fault state
+		}
 		st := &fstate[slotNow()]
 		st.calls++
 		zsimrt.Y(zsimrt.SiteCallback) // a user callback is a place where the caller can be descheduled
